@@ -25,6 +25,9 @@ type PropConfig struct {
 	NotDecided  []string `json:"not_decided"`
 	Extra       []string `json:"extra"` // extra engines: "regexincl:<name>", "lemmas:<file>"
 	Bounded     []string `json:"bounded"`
+	// Elsewhere: regexes of obligation names that belong to another property's claim (the
+	// function is shared); they are generated but neither counted nor reported here.
+	Elsewhere map[string]string `json:"decided_elsewhere"`
 }
 
 type KnownFinding struct {
@@ -178,6 +181,24 @@ func runCheck(id, tier string, updateBaseline bool, only string) int {
 			o.Result = SolverResult{Status: "sat", Solver: "syntactic scan", Raw: so.Msg, Model: so.Msg}
 		}
 		res.obls = append(res.obls, o)
+	}
+	var elsewhere []string
+	if len(cfg.Elsewhere) > 0 {
+		var keep []*Obligation
+		for _, o := range res.obls {
+			skipped := false
+			for re, prop := range cfg.Elsewhere {
+				if m, _ := regexp.MatchString(re, o.Name); m {
+					elsewhere = append(elsewhere, shortKey(o.Name)+" — decided by the check of "+prop)
+					skipped = true
+					break
+				}
+			}
+			if !skipped {
+				keep = append(keep, o)
+			}
+		}
+		res.obls = keep
 	}
 	sort.Slice(res.obls, func(i, j int) bool { return res.obls[i].Name < res.obls[j].Name })
 	// discharge
@@ -411,6 +432,7 @@ func runCheck(id, tier string, updateBaseline bool, only string) int {
 			"contract_files":         relFiles(prog.DB.Files),
 			"machinery_errors":       res.machineErr,
 			"known_findings_reported": knownHit,
+			"obligations_decided_elsewhere": elsewhere,
 		},
 		"assumptions": assumptions,
 		"wall_s":      round2(time.Since(t0).Seconds()),
